@@ -102,6 +102,16 @@ def run(chk, repo, tier):
         chk.ob('C12-c', 'D-agreement', frem.key, f'`{prm}` of analysis and synthesis', same and right,
                '; '.join(f'{e.data["callee"]}: {prm}={fmt(v)}' for e, v in vals), frem.loc(ref.node))
 
+    # ... and the same mode set: the coefficients that are subtracted are the least-squares coefficients of a fit to exactly
+    # the requested modes (fitted jointly with others, the requested ones get different coefficients whenever the modes
+    # are not orthogonal over the mask - any mask that is not a full disc)
+    mvals = [(e, e.bound.get('modes')) for e in zcalls if 'modes' in e.bound]
+    lifted = lambda v: v is not None and nf.strip_apps(v, ('atleast_1d', 'numpy.atleast_1d', 'asarray', 'array', 'cast', 'copy')) == S('modes')
+    if mvals:
+        okm = all(lifted(v) for _, v in mvals)
+        chk.ob('C12-c', 'D-agreement', frem.key, '`modes` of analysis and synthesis are the requested modes', okm,
+               '; '.join(f'{e.data["callee"]}: modes={fmt(v)[:60]}' for e, v in mvals), frem.loc(ref.node))
+
     # ---------------------------------------------------------------- C12-d
     fcomp = repo.func('zernike.zernike_compose')
     _, paths, _ = analyse(repo, fcomp)
